@@ -6,7 +6,7 @@ def run(ctx):
     rep = ctx.report
     rep.rule = ("derive_session_event (built without LLTD_TESTING) on harness-built Discovers: every count 1..240 x every "
                 "position of the own address (and absent) x 17 session-table variants (incl. sessions already marked complete, known sequence numbers 1, 0x7fff, 0x8000, 0x8001, 0xffff apart and bit-flipped), each variant again after the clock moved on by "
-                "59 s, 60 s, 61 s, 62 s, 1 h and 2^33 ms since the sessions were recorded (no expiry tick in between), plus tables with a long life behind them (the mapper's session looked up and recorded, then N = 1 .. 131072 Resets / other sessions recorded and removed, N around 2^4, 2^8, 2^9, 2^16), plus all 256 opcodes x both Reset "
+                "59 s, 60 s, 61 s, 62 s, 1 h and 2^33 ms since the sessions were recorded (no expiry tick in between), plus second Discovers of a session whose first one had a longer list with the own address elsewhere (own address behind the counted entries, inside them, absent), plus tables with a long life behind them (the mapper's session looked up and recorded, then N = 1 .. 131072 Resets / other sessions recorded and removed, N around 2^4, 2^8, 2^9, 2^16), plus all 256 opcodes x both Reset "
                 "destinations; non-trivial = own address present (recognition needed) or opcode classification case")
     rep.assumptions = ["station list = consecutive 6-byte addresses at offset 36 (MS-LLTD)",
                        "filler bytes are >= 0x80 so the own address cannot appear at any other alignment"]
@@ -14,6 +14,7 @@ def run(ctx):
     sweeps.run_sweep(ctx, "c11", [[s, 240] for s in seeds], "C11")
     rep.exhaustive = True
     rep.need("cases", rep.counters.get("sweep_c11_cases", 0), 145000)
+    rep.need("second_discover_cases", rep.counters.get("sweep_c11_second_discover_cases", 0), 300)
     rep.need("table_history_cases", rep.counters.get("sweep_c11_table_history_cases", 0), 400)
     rep.need("odd_entry_cases", rep.counters.get("sweep_c11_odd_entry_cases", 0), 100)
     rep.need("straddling_cases", rep.counters.get("sweep_c11_straddling_cases", 0), 200)
